@@ -256,6 +256,22 @@ pub fn c10_rl(g: &mut Gen) {
 }
 
 pub fn c16_rl(g: &mut Gen) {
+    // a LONG run (its gap and length codes need 30–44 code units) arriving when the current block has 0 … 40 free units, then
+    // more short runs (the next block start truncates anything written across the boundary), conversion and bytes compared
+    for (gap, len) in [(1u64 << 50, 1u64 << 50), (1u64 << 48, (1u64 << 49) + 5), (1u64 << 60, 1u64 << 59), ((1u64 << 45) + 1, 1u64 << 45)] {
+        let mut lines = Vec::new();
+        for k in (0..=32usize).step_by(1) {
+            if k % 2 == 1 && k > 20 { continue; }
+            let mut calls: Vec<String> = (0..k).map(|i| format!("s{},1", 2 * i)).collect();
+            let start = 2 * k as u64 + gap;
+            calls.push(format!("s{},{}", start, len));
+            let mut pos = start + len;
+            for _ in 0..5 { calls.push(format!("s{},3", pos + 2)); pos += 5; }
+            lines.push(format!("rl - builder : {} c", calls.join(" ")));
+            if k % 8 == 0 { lines.push(format!("rl R build : {}", calls.join(" "))); lines.push("rl R ser".to_string()); lines.push("rl R runs".to_string()); lines.push(format!("rl R rank {}", start + 1)); lines.push(format!("rl R select {}", k as u64 + 3)); }
+        }
+        g.group(lines);
+    }
     let depth = if g.thorough { 5 } else { 4 };
     // (the last three: a run ending exactly at usize::MAX, the empty run at usize::MAX, the full-length run — all legal)
     let alphabet: Vec<String> = vec!["s0,1", "s1,2", "s3,0", "s5,3", "s8,1", "s2,2", "l4", "l8", "l10", "l0", "s10,5", "s18446744073709551615,1", "s7,18446744073709551610",
@@ -282,6 +298,16 @@ pub fn c11(g: &mut Gen) {
         if g.thorough { for kind in [2usize, 6] { let b = make_bits(g, 20000, kind); v.push(b); } }
         v
     };
+    // an EMPTY run placed beyond the current length must leave the vector (length, bits, bytes) untouched
+    {
+        let mut lines = Vec::new();
+        for calls in ["s5,3 s20,0 l30", "s5,3 s20,0", "s0,2 s9,0 s3,4 l12", "s100,0 s2,1 l150", "s7,2 s50,0 s9,1 s60,0 l61"] {
+            lines.push(format!("rl R build : {}", calls)); lines.push("rl R len".to_string()); lines.push("rl R ones".to_string()); lines.push("rl R ser".to_string());
+            lines.push("bv B copy_of R".to_string()); lines.push("bv B len".to_string()); lines.push("sp S copy_of R".to_string()); lines.push("sp S len".to_string()); lines.push("sp S ser".to_string());
+            lines.push(format!("rl - builder : {} c", calls));
+        }
+        g.group(lines);
+    }
     let kinds = ["bv", "sp", "rl"];
     for bits in shapes {
         let mut lines = vec![format!("bv SRC from_bits {}", bitstring(&bits))];
